@@ -8,6 +8,7 @@ void c09_softmax(const std::string & kind, vio::Cursor & c, vio::Out & o);   // 
 void c09_thompson(const std::string & kind, vio::Cursor & c, vio::Out & o);  // h_thompson.cpp
 void c09_grad(const std::string & kind, vio::Cursor & c, vio::Out & o);      // h_grad.cpp
 void c09_misc(const std::string & kind, vio::Cursor & c, vio::Out & o);      // h_misc.cpp
+void c09_factored(const std::string & kind, vio::Cursor & c, vio::Out & o);  // h_factored.cpp
 
 int main(int argc, char ** argv) {
     return vio::runCases(argc, argv, [](vio::Cursor & c, vio::Out & o) {
@@ -17,7 +18,8 @@ int main(int argc, char ** argv) {
         else if (kind == "smx" || kind == "smu" || kind == "msm") c09_softmax(kind, c, o);
         else if (kind == "ts" || kind == "tsn" || kind == "tt" || kind == "ttn" || kind == "t3c") c09_thompson(kind, c, o);
         else if (kind == "wolf" || kind == "pga" || kind == "mpol") c09_grad(kind, c, o);
-        else if (kind == "rnd" || kind == "sr" || kind == "esrl") c09_misc(kind, c, o);
+        else if (kind == "rnd" || kind == "brnd" || kind == "mrnd" || kind == "sr" || kind == "esrl") c09_misc(kind, c, o);
+        else if (kind == "frnd" || kind == "fsa") c09_factored(kind, c, o);
         else throw std::logic_error("unknown case kind " + kind);
     });
 }
